@@ -67,6 +67,10 @@ def run_impl(prop: str, seed: int, tier: str, timeout: int, replay: str | None =
     with tempfile.TemporaryDirectory(prefix=f"vcheck_{prop}_") as td:
         out = Path(td) / "out.json"
         cmd = [PY, "-u", str(script), "--seed", str(seed), "--tier", tier, "--out", str(out)]
+        covdir = os.environ.get("VERIF_COVERAGE_DIR")
+        if covdir:  # development only (tools/coverage_map.sh): which lines of mqt.yaqs does the tie execute
+            cmd = [PY, "-u", "-m", "coverage", "run", f"--data-file={covdir}/.coverage.{prop}.{tier}.{os.getpid()}",
+                   "--source=mqt.yaqs"] + cmd[2:]
         if replay:
             cmd += ["--replay", replay]
         env = dict(os.environ)
